@@ -36,4 +36,20 @@ PROPS = {
                     "after_mul is proved for single-qubit gates; two-qubit gates use the same lifting lemma (conj2_mul_split) but the instantiation over the gate table is not yet assembled"],
         "assumptions": ["propagation is invariant under order-preserving relabelling of the qubits the circuit touches; untouched positions are checked unchanged by the harness"],
     },
+    "C11": {
+        "lean_modules": ["StimModel.Props.C11", "StimModel.Generated.GateThms", "StimModel.Generated.PrependThms"],
+        "areas": [
+            {"area": "gatetab", "n": 1, "extra": ["Prepend"]},
+            {"area": "tableau", "n": {"quick": 400, "thorough": 20000}},
+        ],
+        "rule": "Tableau::random and circuit-generated tableaus (sizes 1..6 and 63..65,127..129), 3 word widths: apply, then, inverse (oracle: both compositions are the identity), "
+                "raised_to (small exponents by iterated composition, large ones through the element order), direct sum, scatter append/prepend, apply_within; "
+                "circuit_to_tableau (equality), Circuit::inverse, tableau_to_circuit for elimination (tableau equality) and graph_state/mpp_state (Lean simulates the returned circuit and checks "
+                "it prepares the stabilised state on both collapse branches); stabilizers_to_tableau with clean/redundant/contradictory/anticommuting/under-constrained lists against a Lean "
+                "rank-and-sign analysis; distinct = distinct case descriptions",
+        "trusted_base": [],
+        "partial": ["apply_then / apply_mul / then_assoc are proved exhaustively for one qubit (all 24 Cliffords) and validated by correspondence for larger sizes; the general "
+                    "apply_mul_of_valid lemma is not yet proved", "tableau<->unitary and state-vector conversions are not yet covered"],
+        "assumptions": [],
+    },
 }
